@@ -767,6 +767,8 @@ class BuilderSim:
             drain = steps > self.max_steps
             a = rs[ch.draw(len(rs), "sched")]
             ctx.sched.append(a.id)
+            if self.fault_hook is not None and self.fault_hook(self, a, steps):
+                return False
             if isinstance(a, Actor):
                 self.actor_step(a, drain)
             else:
@@ -776,6 +778,7 @@ class BuilderSim:
         return True
 
     after_step = None
+    fault_hook = None
 
     def actor_step(self, a: Actor, drain: bool):
         ch = self.ctx.ch
